@@ -6,7 +6,7 @@ import time
 
 from . import common, ctx
 from .gen import nontrivial, signature, to_json
-from .workload import all_cases, random_cases
+from .workload import TGen, all_cases, random_cases
 
 
 def classify(root, d):
@@ -139,6 +139,28 @@ def shard(i, n, args):
                     if d:
                         tail = ".".join(d[0].replace("[]", "").replace("{}", "").replace("()", "").split(".")[-2:])
                         fail("ill-typed|%s|at=%s" % (d[1], tail), {"root": root.label, "case": lab, "json": j, "where": d[0], "reason": d[1]})
+        if mode == "C03" and root.kind == "S" and py.attrs.has(root.cls):
+            # "an instance of the requested class": a user-defined subclass (one more field) of the
+            # generated class is requested; the result must be of THAT class with the field read
+            try:
+                Sub = py.attrs.define(type("Verif" + root.name, (root.cls,), {"__annotations__": {"verif_extra": int}, "verif_extra": 0}))
+                g = TGen(mm, _rf(seed, "C03-sub", root.label), maxdepth=2, p_opt=0.3)
+                js = to_json(g.gen(root.t))
+            except Exception:
+                Sub = None
+            if Sub is not None and isinstance(js, dict) and mm.valid(js, root.t):
+                res["subclass_probes"] = res.get("subclass_probes", 0) + 1
+                try:
+                    o = py.conv.structure(dict(js, verifExtra=7), Sub)
+                except Exception as e:
+                    o = None
+                    try:
+                        py.conv.structure(js, root.cls)
+                        fail("structuring a user subclass of a generated class raises|%s" % type(e).__name__, {"root": root.label, "json": js, "error": repr(e)[:300]})
+                    except Exception:
+                        pass  # the base value itself does not parse: C01's subject
+                if o is not None and (type(o) is not Sub or getattr(o, "verif_extra", None) != 7):
+                    fail("root-not-instance|user subclass of a generated class", {"root": root.label, "requested": Sub.__name__, "got": type(o).__name__, "verif_extra": repr(getattr(o, "verif_extra", None))})
         if time.time() > deadline:
             res["budget_exhausted"] = True
             break
@@ -217,6 +239,7 @@ def merge(rep, results, mode):
         "hooks_registered": len(names),
         "case_histories": {k: sum(r["history"][k] for r in results) for k in ("shuffled_key_order", "after_a_failing_call", "repeated_call")},
         "hooks_fired": len(fired),
+        "user_subclass_requests_judged": sum(r.get("subclass_probes", 0) for r in results),
         "hooks_never_fired": never,
         "samples": samples[:4] or [{"note": "none"}],
     }
